@@ -1038,16 +1038,81 @@ End Formatted.
 Theorem get_no_side_effect : forall al t o t' obs,
   ptr_step al t o = (t', obs) ->
   match o, obs with
-  | OGet _, _ | OGetf _, _ => t' = t
-  | _, ObsSet (Some _) => t' = t
+  | OGet _ _, _ | OGetf _ _, _ => t' = t
+  | _, ObsSet (Some _) root_new => t' = t /\ root_new = false
   | _, _ => True
   end.
 Proof.
-  intros al t o t' obs. destruct o as [p|out|p v|out v]; cbn [ptr_step].
-  - intros H. inversion H. reflexivity.
-  - intros H. inversion H. reflexivity.
+  intros al t o t' obs. destruct o as [p w|out w|p v|out v]; cbn [ptr_step].
+  - destruct (ptr_get_out t p (res_arg w)). intros H. inversion H. reflexivity.
+  - destruct (ptr_getf_out t out (res_arg w)). intros H. inversion H. reflexivity.
   - destruct (ptr_set al t p v); intros H; inversion H; auto.
   - destruct (ptr_setf al t out v); intros H; inversion H; auto.
+Qed.
+
+(* ---- "a failed call changes nothing the caller can see": the out-parameter *)
+
+(* the return code / errno / node of the calls with an out-parameter are those of the plain
+   functions, so every theorem above carries over *)
+Lemma get_out_result : forall t p res, fst (ptr_get_out t p res) = ptr_get t p.
+Proof. intros. unfold ptr_get_out. destruct (ptr_get t p); reflexivity. Qed.
+
+Lemma getf_out_result : forall t out res, fst (ptr_getf_out t out res) = ptr_getf t out.
+Proof.
+  intros. unfold ptr_getf_out, ptr_getf. destruct (is_null t); [reflexivity|].
+  destruct out as [[|c s]|]; try reflexivity. destruct (get_recursive t (c :: s)); reflexivity.
+Qed.
+
+(* a failing lookup leaves the caller's result variable exactly as it was (whatever it held,
+   and also when none was passed) *)
+Theorem get_failure_keeps_res : forall t p res e res',
+  ptr_get_out t p res = (GErr e, res') -> res' = res.
+Proof.
+  intros t p res e res'. unfold ptr_get_out. destruct (ptr_get t p); intros H; inversion H; reflexivity.
+Qed.
+
+Theorem getf_failure_keeps_res : forall t out res e res',
+  ptr_getf_out t out res = (GErr e, res') -> res' = res.
+Proof.
+  intros t out res e res'. unfold ptr_getf_out. destruct (is_null t); [intros H; inversion H; reflexivity|].
+  destruct out as [[|c s]|]; try (intros H; inversion H; reflexivity).
+  destruct (get_recursive t (c :: s)); intros H; inversion H; reflexivity.
+Qed.
+
+(* a successful one stores the node found (the one at the reported location) when a variable
+   was passed, and nothing when res == NULL *)
+Theorem get_success_stores_node : forall t p res path n res',
+  ptr_get_out t p res = (GOk path n, res') ->
+  res' = match res with Some _ => Some (RNode path n) | None => None end /\ node_at t path = Some n.
+Proof.
+  intros t p res path n res'. unfold ptr_get_out. destruct (ptr_get t p) as [path0 n0|] eqn:G; intros H; inversion H; subst.
+  split; [reflexivity|]. eapply get_returns_node_at_path; eauto.
+Qed.
+
+Theorem getf_success_stores_node : forall t out res path n res',
+  ptr_getf_out t out res = (GOk path n, res') ->
+  res' = match res with Some _ => Some (RNode path n) | None => None end.
+Proof.
+  intros t out res path n res'. unfold ptr_getf_out. destruct (is_null t); [discriminate|].
+  destruct out as [[|c s]|]; try discriminate.
+  - intros H. inversion H. reflexivity.
+  - destruct (get_recursive t (c :: s)); intros H; inversion H; reflexivity.
+Qed.
+
+(* the root handle of set / setf changes only in the "" case, which cannot fail *)
+Theorem set_root_handle : forall al t p v,
+  match ptr_set al t p v with
+  | SErr _ => True                                   (* [ptr_step]: handle and tree as before *)
+  | SOk t' => if root_replaced t p v then p = [] /\ t' = v else (p = [] -> t' = t)
+  end.
+Proof.
+  intros al t p v. unfold ptr_set, ptr_set_with_array_cb, root_replaced. destruct p as [|c s].
+  - destruct (negb (is_null t && is_null v)) eqn:E; [auto|]. intros _.
+    apply negb_false_iff, andb_true_iff in E. destruct E as [Et Ev]. destruct t; try discriminate. destruct v; try discriminate. reflexivity.
+  - destruct (negb (c =? 47)); [exact I|].
+    destruct (removelast (split_slash s)).
+    + destruct (set_single_path _ _ _ _ _); [discriminate|exact I].
+    + destruct (get_walk t (l :: l0)); [|exact I]. destruct (set_single_path _ _ _ _ _); [discriminate|exact I].
 Qed.
 
 (* ================================================================ examples (non-vacuity) *)
